@@ -1,7 +1,7 @@
 """C02 — signatures and parameter digests cover the specified bytes (structural part). DESIGN §4 C02."""
 import ast
 
-from .common import ctx, returns, calls_in_ctx, reach_from_succ, site, srcs_text, const_bool, comes_from, expr_texts, full_text
+from .common import ctx, returns, calls_in_ctx, reach_from_succ, site, srcs_text, const_bool, comes_from, expr_texts, full_text, shared_obligations
 from ..flow import callee_attr
 from ..linexpr import lin, NotLinear
 from ..loader import AnalysisError, norm
@@ -346,4 +346,9 @@ def run(R):
             R.ok('C02.SIB.1', inst, site(vx, ver[0].ast))
         else:
             R.fail('C02.SIB.1', inst, vx.qual, 'def ' + vf, 'the verifier can answer True without a successful verify() of the carried signature value', site(vx, vx.f.node))
+    # the check only protects anything if the front-ends run it for every Interest that carries parameters (even empty ones) or a signature
+    R.ob('C02.SHR.1', 'shared with C05: both front-ends run the parameters-digest check for every Interest with ApplicationParameters (present, '
+                      'not "non-empty") or a signature before the handler can be reached')
+    shared_obligations(R, 'C02.SHR.1', 'C05', {'C05.MPT.2': lambda i: '_on_interest ::' in i and 'validation-required condition' in i,
+                                               'C05.MPT.3': lambda i: '_on_interest ::' in i and ('validation-required condition' in i or 'parameters-digest gate' in i)})
     R.assumptions += ['that tampered packets are rejected is a property of the cryptographic primitives (Cryptodome), not decided here']
